@@ -24,6 +24,7 @@ type tlsKit struct {
 	ServerCert string
 	ServerKey  string
 	Pool       *x509.CertPool
+	ServerTLS  tls.Certificate              // the server pair as a value (for SetTLSConfig)
 	Clients    map[string][]tls.Certificate // kind -> certificate list (empty = present none)
 }
 
@@ -108,7 +109,7 @@ func getKit() (*tlsKit, error) {
 			kitErr = err
 			return
 		}
-		k := &tlsKit{Clients: map[string][]tls.Certificate{}}
+		k := &tlsKit{Clients: map[string][]tls.Certificate{}, ServerTLS: tlsCert(svKey, svDER)}
 		k.Pool = x509.NewCertPool()
 		k.Pool.AddCert(ca)
 		// valid client: CN=localhost under the CA
